@@ -21,6 +21,10 @@ func TestReplay(t *testing.T) { prop.Replay(t, nil) }
 func nameGen() *rapid.Generator[string] {
 	return rapid.Custom(func(t *rapid.T) string {
 		n := rapid.StringMatching(`[A-Za-z_-][A-Za-z0-9_-]{0,10}`).Draw(t, "name")
+		if rapid.IntRange(0, 5).Draw(t, "unicode") == 0 {
+			// letters whose lower-case form has another length in UTF-8, and other non-ASCII letters
+			n += rapid.SampledFrom([]string{"\u0130nce", "\u212a", "\u03a9", "\u1e9e", "\u00c5", "\u023a", "\u6f22", "\u00e9"}).Draw(t, "uni")
+		}
 		// a bare name must not be a sub-package name (case-insensitively); the per-case numeric suffix guarantees that too
 		switch strings.ToLower(n) {
 		case "csv", "html", "json", "markdown", "texttable":
@@ -51,7 +55,8 @@ func caseGen() *rapid.Generator[Case] {
 				op.Which = rapid.IntRange(0, 5).Draw(t, "which")
 				switch op.Subject {
 				case "name", "builtin":
-					op.Form = rapid.SampledFrom([]string{"bare", "tt.", "Tt.", "TT."}).Draw(t, "form")
+					op.Form = rapid.SampledFrom([]string{"bare", "tt.", "Tt.", "TT.", "bare+trail"}).Draw(t, "form")
+					op.Trail = rapid.SampledFrom([]string{"compact", "x.y", "wide"}).Draw(t, "trail")
 				case "pkg":
 					op.Form = rapid.SampledFrom([]string{"bare", "flip", "trail", "flip+trail"}).Draw(t, "form")
 					op.Trail = rapid.SampledFrom([]string{"x", "x.y", "", "utf8-light", "caption=foo", "CSV", "..", "texttable.none"}).Draw(t, "trail")
